@@ -14,7 +14,7 @@ import scen
 
 PROP = "C01"
 OWNERS = ["ed0", "edp0", "ec-a", "rsa-2048-a", "ed1", "rsa-2048-b512"]
-SIG_EDITS = ["flip", "truncate", "empty", "relabel", "other_content", "drop", "zero", "swap", "dup"]
+SIG_EDITS = ["flip", "truncate", "empty", "relabel", "other_content", "drop", "zero", "swap", "dup", "resign_by_other", "resign_by_other"]
 OTHER_ID = "ab" * 32
 
 
@@ -90,14 +90,15 @@ def shard(binpath, seed, sh, n):
         other = copy.deepcopy(sc["layout"])
         other["readme"] += " (other)"
         reqs.append((other, sc["S"], "new"))
+        reqs.append((sc["layout"], sc["S"], "builder"))       # second, independent signatures over the same content
         for l in sc["links"]:
             reqs.append((l["doc"], l["signers"], "new"))
         idx.append(base)
     wires = scen.sign_all(binpath, reqs, nproc=1)
     cases = []
     for sc, base in zip(scs, idx):
-        lw, other_w = wires[base], wires[base + 1]
-        link_w = wires[base + 2: base + 2 + len(sc["links"])]
+        lw, other_w, again_w = wires[base], wires[base + 1], wires[base + 2]
+        link_w = wires[base + 3: base + 3 + len(sc["links"])]
         files = pipeline.assemble(W, lw, list(zip(sc["links"], link_w)))
         S = sc["S"]
         pairs, M, mapdesc, aliased = caller_map(rng, W, S)
@@ -127,6 +128,15 @@ def shard(binpath, seed, sh, n):
                     j2 = (j + 1) % len(sigs)
                     sigs[j]["sig"], sigs[j2]["sig"] = sigs[j2]["sig"], sigs[j]["sig"]
                     broken = {name, next(k for k in S if W.kid(k) == sigs[j2]["keyid"])}
+                else:
+                    kind = "flip"
+            if kind == "resign_by_other":
+                # the entry of one signer is replaced by a second, independently made signature of ANOTHER signer
+                donors = [k for k in S if k != name]
+                if donors:
+                    donor = rng.choice(donors)
+                    sigs[j] = copy.deepcopy(next(s_ for s_ in again_w["signatures"] if s_["keyid"] == W.kid(donor)))
+                    broken = {name}
                 else:
                     kind = "flip"
             if kind == "dup":
@@ -209,5 +219,5 @@ def main(ctx):
         assumptions=["signature validity ground truth is by construction", "value equality for 'semantics-preserving' is the library's PartialEq"],
         required=["positive_control_accepted", "positive:ed", "positive:ec", "positive:rsa", "map:empty", "map:two_ids",
                   "map:superset", "map:disjoint", "map:subset", "action:content:set", "action:sig:flip", "action:sig:relabel",
-                  "action:sig:other_content", "action:sig:drop", "expect:reject", "observed:reject"],
+                  "action:sig:other_content", "action:sig:drop", "action:sig:resign_by_other", "expect:reject", "observed:reject"],
         min_evals=500)
